@@ -223,11 +223,20 @@ Definition id_map (sh : shape) (c : cell) : Z := if in_grid sh c then flat_index
 (* ------------------------------------------------------------------------------------------ *)
 (* the whole call, given the value [len] the implementation obtained for |end - start|          *)
 (* ------------------------------------------------------------------------------------------ *)
+(* The sample points do not depend on the square root:  with direction = (end - start) / length and
+   t = (it + 0.5) * length / n,   start + direction * t = start + (end - start) * (2 it + 1) / (2 n).
+   The executable model evaluates the right-hand side (small numbers); the identity with the literal
+   formula of the code ([point_at], [sample_points]) is lemma point_lam_literal in Proofs/C10_Chord.v. *)
+Definition lam_of (n k : Z) : Q := inject_Z (2 * k + 1) / inject_Z (2 * n).
+Definition point_lam (start d : vec) (n k : Z) : vec :=
+  let '(s1, s2, s3) := start in let '(d1, d2, d3) := d in
+  let l := lam_of n k in (s1 + d1 * l, s2 + d2 * l, s3 + d3 * l).
+Definition sample_points_lam (start d : vec) (n : Z) : list vec :=
+  map (point_lam start d n) (zrange (Z.to_nat n)).
+
 Definition integrate_cells (cellfn : vec -> cell) (start stop : vec) (len stp : Q) (min_samples : Z) : list cell :=
   let n := nsamples min_samples len stp in
-  let dt := dt_of len n in
-  let dir := vscale (/ len) (vsub stop start) in      (* direction.normalise() *)
-  map cellfn (sample_points start dir dt n).
+  map cellfn (sample_points_lam start (vsub stop start) n).
 
 Definition integrate (cellfn : vec -> cell) (vm : cell -> Z) (start stop : vec) (len stp : Q) (min_samples : Z)
            (s0 : spectrum) : spectrum :=
